@@ -102,6 +102,9 @@ fn record_fault(r: &mut RunReport, op: &Op, info: &ExecInfo) {
         } else {
             r.planned_not_fired += 1;
         }
+        if info.persist_hits > 0 {
+            *r.fired.entry(format!("{}-still-there-on-reopen/{}", f.kind.name(), op.family())).or_insert(0) += 1;
+        }
     }
     if op.kind == ops::INJECT_PANIC {
         *r.fired.entry("F7-panic-holding-provider/inject".into()).or_insert(0) += 1;
